@@ -38,11 +38,11 @@ func c18Files() map[string]string {
 		"flows/f2.yaml": probeFlow("f2", "a.com/p2", 412),
 		// three inert flows on an enclosing wildcard pattern: the lookup result of a
 		// transaction merges them with the flows of the deeper node
-		"flows/w1.yaml":       inertFlow("w1", "a.com/*"),
-		"flows/w2.yaml":       inertFlow("w2", "a.com/*"),
-		"flows/w3.yaml":       inertFlow("w3", "a.com/*"),
-		"flows/fl.yaml":       limiterFlow("fl", "a.com/l", "cq").YAML(),
-		"flows/fc.yaml":       limiterFlow("fc", "b.io/c", "cc").YAML(),
+		"flows/w1.yaml": inertFlow("w1", "a.com/*"),
+		"flows/w2.yaml": inertFlow("w2", "a.com/*"),
+		"flows/w3.yaml": inertFlow("w3", "a.com/*"),
+		"flows/fl.yaml": limiterFlow("fl", "a.com/l", "cq").YAML(),
+		"flows/fc.yaml": limiterFlow("fc", "b.io/c", "cc").YAML(),
 		"quotas/q.yaml": strings.ReplaceAll(strings.ReplaceAll(c08Quota, "a.com/p1", "a.com/l"), "max: 100000", "max: 3\n        group_by_header: x-grp") +
 			"  - id: qq\n    filter:\n      url: a.com/q\n    strategy:\n      fixed_window:\n        max: 1\n        interval: 1\n        interval_unit: second\n",
 		// a Queue processor: its processing loop, TTL watcher and removal goroutines run beside the transactions
